@@ -18,7 +18,7 @@ import functools
 import inspect
 import sys
 import typing
-from typing import Any, Dict, Iterator, List, Optional, Sequence, Union
+from typing import Any, Dict, Iterator, List, Optional, Sequence, Set, Union
 
 from pyglove.core import coding
 from pyglove.core import typing as pg_typing
@@ -201,6 +201,23 @@ class ObjectMeta(abc.ABCMeta):
 
 
 # Use ObjectMeta as meta class to inherit schema and type_name property.
+def _copy_repeated_symbolic_values(value: Any, seen: Set[int]) -> Any:
+  """Copies the later occurrences of a parent-less symbolic value."""
+  if isinstance(value, base.Symbolic):
+    if value.sym_parent is None:
+      if id(value) in seen:
+        return value.clone()
+      seen.add(id(value))
+    return value
+  if isinstance(value, dict):
+    return {
+        k: _copy_repeated_symbolic_values(v, seen) for k, v in value.items()
+    }
+  if isinstance(value, list):
+    return [_copy_repeated_symbolic_values(v, seen) for v in value]
+  return value
+
+
 class Object(base.Symbolic, metaclass=ObjectMeta):
   """Base class for symbolic user classes.
 
@@ -703,6 +720,10 @@ class Object(base.Symbolic, metaclass=ObjectMeta):
             f'{self.__class__.__name__}.__init__() missing {len(missing_args)} '
             f'required {arg_phrase}: {keys_str}.')
 
+    # NOTE: the attribute container has no parent to give to its children
+    # until the object is built, so a parent-less symbolic value that is given
+    # at two places of this call would not be recognized as already placed.
+    field_args = _copy_repeated_symbolic_values(field_args, set())
     try:
       sym_attributes = pg_dict.Dict(
           field_args,
